@@ -1267,11 +1267,21 @@ func (st *State) rangeNext(f *Frame, x *ssa.Next) Value {
 		st.set(f, x.Iter, &it2)
 		return Tuple{B(true), C(64, uint64(i)), C(32, uint64(it.str[i]))}
 	}
+	// entries removed from the map since the range started are not produced (Go spec)
+	if mo := st.mapObj(it.m); mo != nil && len(it.remain) > 0 {
+		kept := make([]MapEntry, 0, len(it.remain))
+		for _, e := range it.remain {
+			if j := st.mapFind(mo, e.K); j >= 0 {
+				kept = append(kept, mo.Entries[j]) // current value of the entry
+			}
+		}
+		it = &rangeIter{m: it.m, remain: kept}
+	}
 	if len(it.remain) == 0 {
 		return Tuple{B(false), nil, nil}
 	}
 	k := 0
-	if len(it.remain) > 1 && st.run.Opts.MapOrderChoice {
+	if len(it.remain) > 1 && st.run.Opts.MapOrderChoice && !st.mapFixed {
 		// the symbol is parked in the state so that the child of the fork re-uses it
 		ch := st.pendingChoice("maporder", uint64(len(it.remain)))
 		k = int(st.concretize(ch))
